@@ -5,7 +5,9 @@
 (* outbox, by two users, from several starting counters.                    *)
 EXTENDS MCBase
 
-MCInit == {[BaseState EXCEPT !.nextNonce = n, !.limits = {}] : n \in (IF Thorough THEN {0, 7} ELSE {0})}
+\* starting counters: 0, an arbitrary one, and 3498 = 2^32 - 2 (abstract nonces 3000.. are the absolute range
+\* around 2^32, so the histories below cross the 32-bit boundary)
+MCInit == {[BaseState EXCEPT !.nextNonce = n, !.limits = {}] : n \in (IF Thorough THEN {0, 7, 3498} ELSE {0, 3498})}
 
 Users == {"a1", "a2"}
 Producers(u) ==
